@@ -39,7 +39,7 @@ def cases(tier, seed):
     for fr in pick_frames(FRAMES, tier, seed):
         for k in ks:
             for sub in itertools.combinations(range(16), k):
-                for form in ("array2d", "array1d", "grid", "int", "int_e", "F", "proj_array", "proj_grid"):
+                for form in ("array2d", "array1d", "grid", "grid_desc", "int", "int_e", "F", "proj_array", "proj_grid"):
                     if form != "array2d" and (sum(sub) % 4 != 0):
                         continue
                     if form in ("int", "int_e") and fr[0] * 0.5 != int(fr[0] * 0.5) and fr != [1.0, 0.0] and fr != [1.0, 1e7]:
@@ -198,13 +198,19 @@ def run(case, rec):
             # the projection is applied to BOTH the data and the query points / grid nodes (a rotation plus scaling keeps hull
             # membership of every lattice point): seed C16-r3_1
             pkw["projection"] = lambda a, b: (2 * (np.asarray(a) + np.asarray(b)) + 7, 3 * (np.asarray(a) - np.asarray(b)) - 1)
-        if form in ("grid", "proj_grid", "f32grid", "proj_nl_grid"):
+        if form in ("grid", "grid_desc", "proj_grid", "f32grid", "proj_nl_grid"):
             vals = np.arange(float(nqn * nqe)).reshape(nqn, nqe) + 1.0
-            grid = xr.Dataset({"v": (("northing", "easting"), vals)}, coords={"easting": qe[0, :], "northing": qn[:, 0]})
+            if form == "grid_desc":
+                # a grid whose coordinate vectors run north-to-south and east-to-west (round 9, seed C16-18: a window found with searchsorted)
+                grid = xr.Dataset({"v": (("northing", "easting"), vals[::-1, ::-1].copy())}, coords={"easting": qe[0, ::-1].copy(), "northing": qn[::-1, 0].copy()})
+            else:
+                grid = xr.Dataset({"v": (("northing", "easting"), vals)}, coords={"easting": qe[0, :], "northing": qn[:, 0]})
             got = call(rec, vd.convexhull_mask, (de, dn), grid=grid, **pkw)
             if raised(got):
                 return rec.check(False, "convexhull_mask(grid) raised %r" % (got,))
             gv = np.asarray(got["v"].values)
+            if form == "grid_desc":
+                gv = gv[::-1, ::-1]
             mask = ~np.isnan(gv)
             rec.check(bool(np.all(gv[mask] == vals[mask])), "grid form changed values it kept")
         else:
